@@ -146,6 +146,9 @@ func (r *Runner) nodeOpts(i int) sim.NodeOpts {
 			c.BatchApplyCh = p.BatchCh
 			c.ShutdownOnRemove = p.ShutRm
 			c.PreVoteDisabled = p.NoPreVote[i]
+			if i < len(p.Proto) && p.Proto[i] != 0 {
+				c.ProtocolVersion = raft.ProtocolVersion(p.Proto[i])
+			}
 			c.RestoreCommittedLogs = p.RCL && sim.Flavour(p.Flavour[i]) >= sim.CommitTracking
 		},
 	}
@@ -169,6 +172,11 @@ func (r *Runner) Setup() {
 	r.W = w
 	if p.RPCms > 0 {
 		w.Net.RPCTimeout = time.Duration(p.RPCms) * time.Millisecond
+	}
+	for _, v := range p.Proto {
+		if v != 0 && v < 3 {
+			w.AddrIsID = true
+		}
 	}
 	var cfg raft.Configuration
 	for i := 0; i < p.N; i++ {
